@@ -21,6 +21,7 @@ def run(ck):
     progs = algebra.array_programs(ck.seed, 60 if q else 1200, tids=tids)
     progs += algebra.diag_programs(ck.seed, 60 if q else 1000, tids=tids)
     progs += algebra.vector_programs(ck.seed, 40 if q else 800, tids=tids)
+    progs += algebra.mixed_programs(ck.seed, 30 if q else 600, tids=tids)
     ck.cov["rule"] = ("random sparse abelian arrays (with a same-shape partner storing different sectors, a diagonal vector "
                       "possibly missing charges) and block vectors; every listed operation through method / symmray / autoray; "
                       "results compared with the operation on the denotation, entry points with each other bit for bit")
